@@ -1,0 +1,133 @@
+/*
+ * Verification hooks for SuperLU_MT.  Everything in this file is inert unless
+ * the library is compiled with -DSLU_MT_VERIF: with the guard off every macro
+ * below expands to nothing and no symbol is referenced.
+ *
+ * With the guard on the library exports three callback pointers (NULL by
+ * default, so a guard-on library behaves identically without a harness):
+ *
+ *   sluv_event_cb    - records an event (scheduler decision, column release,
+ *                      supernode read bracket, prune bracket, allocation ...)
+ *   sluv_perturb_cb  - schedule perturbation point between critical sections
+ *   sluv_slots_cb    - snapshot of the L-supernode slot map after ?PresetMap
+ *
+ * and, when compiled by a ThreadSanitizer build, tells TSan which plain
+ * flag stores/loads the code uses as synchronisation (happens-before edges).
+ */
+#ifndef __SLU_MT_VERIF_H
+#define __SLU_MT_VERIF_H
+
+#ifdef SLU_MT_VERIF
+
+#ifdef __cplusplus
+extern "C" {
+#endif
+
+/* event kinds */
+enum {
+    SLUV_E_SCHED = 1,     /* pnum, panel|-1, bcol, tasks_remain, q.head, q.tail(+count<<32) */
+    SLUV_E_PANEL_BEGIN,   /* pnum, jcol, w, type */
+    SLUV_E_PANEL_DONE,    /* pnum, jcol, w */
+    SLUV_E_MARK_BUSY,     /* pnum, jcol, bcol(after mark_busy_descends) */
+    SLUV_E_COL_BEGIN,     /* pnum, jj, jcol */
+    SLUV_E_COL_PIVOTED,   /* pnum, jj, pivrow, info */
+    SLUV_E_COL_RELEASE,   /* pnum, jj */
+    SLUV_E_WAIT_BEGIN,    /* pnum, jcol, kcol   (the flag was seen busy) */
+    SLUV_E_WAIT_END,      /* pnum, jcol, kcol   (after the wait point, blocked or not) */
+    SLUV_E_SN_READ_BEGIN, /* pnum, jcol, fsupc, krep, w, busy?1:0 */
+    SLUV_E_SN_READ_END,   /* pnum, jcol, fsupc, krep */
+    SLUV_E_SN_XCHG,       /* pnum, jcol, fsupc, pivptr */
+    SLUV_E_PRUNE_BEGIN,   /* -, irep, jcol, lo, hi */
+    SLUV_E_PRUNE_END,     /* -, irep, jcol, newprune */
+    SLUV_E_SUB_READ_BEGIN,/* pnum, jcol, krep, lo, hi */
+    SLUV_E_SUB_READ_END,  /* pnum, jcol, krep */
+    SLUV_E_NSUPER,        /* pnum, jcol, nsuper */
+    SLUV_E_LSUB_ALLOC,    /* pnum, jcol, pos, len */
+    SLUV_E_ALLOC_LUSUP,   /* pnum, jcol, fsupc, prev_next, num, nzlumax */
+    SLUV_E_DYN_SETMAP,    /* pnum, jcol, nextlu, num, nzlumax */
+    SLUV_E_SNODE_BEGIN,   /* pnum, jcol, kcol(one past)  relaxed supernode factor */
+    SLUV_E_MAX
+};
+
+/* perturbation sites */
+enum {
+    SLUV_Y_LOOP_TOP = 1, SLUV_Y_SCHED_EXIT, SLUV_Y_AFTER_PIVOT,
+    SLUV_Y_BEFORE_RELEASE, SLUV_Y_AFTER_RELEASE, SLUV_Y_BEFORE_PRUNE,
+    SLUV_Y_PRUNE_SCAN, SLUV_Y_MID_SWAP, SLUV_Y_BEFORE_WAIT,
+    SLUV_Y_NSUPER_LSUB, SLUV_Y_BEFORE_DONE, SLUV_Y_SUB_READ, SLUV_Y_MAX
+};
+
+typedef void (*sluv_event_fn)(int kind, long a, long b, long c, long d,
+			      long e, long f);
+typedef void (*sluv_perturb_fn)(int site);
+typedef void (*sluv_slots_fn)(long n, const void *map_in_sup, int isize,
+			      int dynamic, long nextpos);
+
+extern sluv_event_fn   sluv_event_cb;
+extern sluv_perturb_fn sluv_perturb_cb;
+extern sluv_slots_fn   sluv_slots_cb;
+
+#ifdef __cplusplus
+}
+#endif
+
+#define SLUV_EVENT(kind,a,b,c,d,e,f) \
+    do { if (sluv_event_cb) sluv_event_cb((kind),(long)(a),(long)(b),(long)(c),\
+					  (long)(d),(long)(e),(long)(f)); } while (0)
+#define SLUV_YIELD(site) \
+    do { if (sluv_perturb_cb) sluv_perturb_cb(site); } while (0)
+#define SLUV_SLOTS(n,map,dyn,nextpos) \
+    do { if (sluv_slots_cb) sluv_slots_cb((long)(n),(const void*)(map),\
+			(int)sizeof(*(map)),(int)(dyn),(long)(nextpos)); } while (0)
+
+/* ---- ThreadSanitizer annotations ---- */
+#if defined(__SANITIZE_THREAD__)
+#define SLUV_TSAN 1
+#elif defined(__has_feature)
+#if __has_feature(thread_sanitizer)
+#define SLUV_TSAN 1
+#endif
+#endif
+
+#ifdef SLUV_TSAN
+#ifdef __cplusplus
+extern "C" {
+#endif
+void __tsan_acquire(void *addr);
+void __tsan_release(void *addr);
+void AnnotateBenignRaceSized(const char *f, int l, const volatile void *mem,
+			     unsigned long size, const char *desc);
+void AnnotateIgnoreReadsBegin(const char *f, int l);
+void AnnotateIgnoreReadsEnd(const char *f, int l);
+#ifdef __cplusplus
+}
+#endif
+#define SLUV_TSAN_ACQUIRE(addr) __tsan_acquire((void*)(addr))
+#define SLUV_TSAN_RELEASE(addr) __tsan_release((void*)(addr))
+#define SLUV_TSAN_BENIGN(addr,size,desc) \
+    AnnotateBenignRaceSized(__FILE__, __LINE__, (const volatile void*)(addr),\
+			    (unsigned long)(size), desc)
+#define SLUV_TSAN_IGNORE_READS_BEGIN() AnnotateIgnoreReadsBegin(__FILE__, __LINE__)
+#define SLUV_TSAN_IGNORE_READS_END()   AnnotateIgnoreReadsEnd(__FILE__, __LINE__)
+#else
+#define SLUV_TSAN_ACQUIRE(addr)          ((void)0)
+#define SLUV_TSAN_RELEASE(addr)          ((void)0)
+#define SLUV_TSAN_BENIGN(addr,size,desc) ((void)0)
+#define SLUV_TSAN_IGNORE_READS_BEGIN()   ((void)0)
+#define SLUV_TSAN_IGNORE_READS_END()     ((void)0)
+#endif
+
+#else /* !SLU_MT_VERIF */
+
+#define SLUV_EVENT(kind,a,b,c,d,e,f)     ((void)0)
+#define SLUV_YIELD(site)                 ((void)0)
+#define SLUV_SLOTS(n,map,dyn,nextpos)    ((void)0)
+#define SLUV_TSAN_ACQUIRE(addr)          ((void)0)
+#define SLUV_TSAN_RELEASE(addr)          ((void)0)
+#define SLUV_TSAN_BENIGN(addr,size,desc) ((void)0)
+#define SLUV_TSAN_IGNORE_READS_BEGIN()   ((void)0)
+#define SLUV_TSAN_IGNORE_READS_END()     ((void)0)
+
+#endif /* SLU_MT_VERIF */
+
+#endif /* __SLU_MT_VERIF_H */
